@@ -134,6 +134,8 @@ def compare_corr(pe, res, T, N, expected, rtol=1e-12):
             continue
         if r is None:
             return 'timeslice %d is undefined although all operands are defined' % t
+        if np.shape(r) != ((N, N) if N > 1 else (1,)):
+            return 'timeslice %d of a correlator with N=%d has shape %s (single-valued correlators hold (1,), matrix correlators (N, N))' % (t, N, np.shape(r))
         ea = np.asarray(e, dtype=object).reshape(-1)
         ra = np.asarray(r, dtype=object).reshape(-1)
         if ea.shape != ra.shape:
@@ -320,12 +322,14 @@ def run_partner(pe, acc, case):
     T, N = case['T'], case['N']
     A0 = mkcorr(pe, 'PA', [1] * T, vals_for(T), N)
     partners = {'Obs': mkobs(pe, 'po', 0.7), 'CObs': pe.CObs(mkobs(pe, 'pcr', 0.7), mkobs(pe, 'pci', -0.4)), 'int': 2, 'float': 0.5,
-                'npfloat': np.float64(0.25), 'npint': np.int64(3)}
+                'npfloat': np.float64(0.25), 'npint': np.int64(3), 'npuint8': np.uint8(2), 'npint32': np.int32(-3), 'zero': 0, 'zero-float': 0.0}
     for pa in patterns(T):
         A = pe.Corr([A0.content[t] if pa[t] else None for t in range(T)], prange=[0, T - 1])
         for pn, P in partners.items():
             for op in ('+', '-', '*', '/'):
                 for side in ('right', 'left'):
+                    if pn.startswith('zero') and op == '/' and side == 'right':
+                        continue       # division of a correlator by the number zero is refused
                     sub = dict(case, pa=list(pa), partner=pn, op=op, side=side)
                     if 'partner' in case and (case['pa'], case['partner'], case['op'], case['side']) != (list(pa), pn, op, side):
                         continue
@@ -334,11 +338,10 @@ def run_partner(pe, acc, case):
                         fn, args, exp = f, [A, P], (lambda: slicewise(pe, A, P, f, T))
                     else:
                         fn, args, exp = f, [P, A], (lambda: slicewise(pe, P, A, f, T))
-                    # numpy scalars on the left take numpy's own dispatch; recorded as refusal if numpy declines
                     call_checked(pe, acc, 'corr%s%s:%s' % (op, pn, side), sub, '%s, pattern %s' % (('Corr %s %s' % (op, pn)) if side == 'right' else ('%s %s Corr' % (pn, op)), pa),
-                                 fn, args, exp, T, N, key=('pt', T, N, tuple(pa), pn, op, side), refusal_ok=pn.startswith('np'))
+                                 fn, args, exp, T, N, key=('pt', T, N, tuple(pa), pn, op, side))
         # ** with a real exponent on the right; neg; abs
-        for en, E in (('int', 2), ('float', 0.5), ('negfloat', -1.5), ('Obs', mkobs(pe, 'pe', 1.3))):
+        for en, E in (('int', 2), ('float', 0.5), ('negfloat', -1.5), ('Obs', mkobs(pe, 'pe', 1.3)), ('npint', np.int64(2)), ('npnegint', np.int32(-1))):
             sub = dict(case, pa=list(pa), exponent=en)
             call_checked(pe, acc, 'corr**%s' % en, sub, 'Corr ** %s, pattern %s' % (en, pa), operator.pow, [A, E],
                          lambda: slicewise(pe, A, E, operator.pow, T), T, N, key=('pow', T, N, tuple(pa), en))
@@ -575,6 +578,15 @@ def run_matrix_maps(pe, acc, case):
                          lambda: [None if c[t] is None else nl @ c[t] @ nr for t in range(T)], T, 1, key=('proj', T, pa, normalize))
             call_checked(pe, acc, 'projected:default', dict(sub0, normalize=normalize), 'projected() default vector, pattern %s' % (pa,),
                          lambda x, n: x.projected(normalize=n), [M, normalize], lambda: [None if c[t] is None else c[t][0, 0] for t in range(T)], T, 1, key=('proj0', T, pa, normalize))
+            # two DIFFERENT lists of per-timeslice vectors (left / right), a list on one side and a single vector on the other
+            ll = [np.array([1.0 + 0.1 * t, 2.0 - 0.2 * t]) for t in range(T)]
+            rl = [np.array([-0.5 + 0.3 * t, 1.5 + 0.1 * t]) for t in range(T)]
+            nrm = (lambda v: v / np.sqrt(v @ v)) if normalize else (lambda v: v)
+            for nm2, a2, b2 in (('list-list', ll, rl), ('list-vector', ll, vr), ('vector-list', vl, rl)):
+                call_checked(pe, acc, 'projected:%s%s' % (nm2, ':normalize' if normalize else ''), dict(sub0, normalize=normalize, form=nm2),
+                             'projected(%s, normalize=%s), pattern %s' % (nm2, normalize, pa), lambda x, a, b, n: x.projected(a, b, normalize=n), [M, a2, b2, normalize],
+                             lambda a2=a2, b2=b2: [None if c[t] is None else nrm(a2[t] if isinstance(a2, list) else a2) @ c[t] @ nrm(b2[t] if isinstance(b2, list) else b2) for t in range(T)],
+                             T, 1, key=('proj2', T, pa, normalize, nm2))
             # per-timeslice vectors (lists), with an undefined vector at one slice
             for vnone in [None] + list(range(T)):
                 vlist = [None if t == vnone else np.array([1.0 + 0.1 * t, 2.0 - 0.2 * t]) for t in range(T)]
@@ -588,8 +600,6 @@ def run_matrix_maps(pe, acc, case):
                             v = vlist[t] / np.sqrt(vlist[t] @ vlist[t]) if normalize else vlist[t]
                             out.append(v @ c[t] @ v)
                     return out
-                if normalize and vnone is not None:
-                    continue   # normalising a list that contains None is outside the documented use
                 call_checked(pe, acc, 'projected:list%s' % (':normalize' if normalize else ''), dict(sub0, normalize=normalize, vnone=vnone),
                              'projected(list of vectors, normalize=%s), pattern %s, undefined vector at %s' % (normalize, pa, vnone),
                              lambda x, v, n: x.projected(v, normalize=n), [M, vlist, normalize], exp, T, 1, key=('projl', T, pa, normalize, vnone))
